@@ -305,6 +305,51 @@ def r7_no_glued_chunks(ctx, chk, rule="C16.1"):
     return n
 
 
+def r8_results_untouched(ctx, chk, rule="C16.1"):
+    """Between run_games() and save_results_to_file() nothing may modify the results: a function that receives them (a second
+    report writer, a post-processing step) and mutates an entry or one of its vectors in place changes what the text report says
+    the batch produced."""
+    from ..pointsto import PointsTo
+    f = ctx.func("conditionalrewards.py::main")
+    cfg = ctx.cfg(f)
+    res = None
+    for st in walk_no_nested_defs(f.node):
+        if isinstance(st, ast.Assign) and len(st.targets) == 1 and isinstance(st.targets[0], ast.Name) and isinstance(st.value, ast.Call) and call_name(st.value) == "run_games":
+            res = st.targets[0].id
+    saves = [c for c in walk_no_nested_defs(f.node) if isinstance(c, ast.Call) and call_name(c) == "save_results_to_file"]
+    if res is None or len(saves) != 1:
+        chk.undecided(rule, f.where(), "main() does not keep the result of run_games in a variable that it then saves")
+        return
+    n = 0
+    for c in walk_no_nested_defs(f.node):
+        if not isinstance(c, ast.Call) or c is saves[0] or call_name(c) in ("save_results_to_file", "run_games"):
+            continue
+        idx = [i for i, a in enumerate(c.args) if isinstance(a, ast.Name) and a.id == res]
+        if not idx:
+            continue
+        # can this call run before the save?
+        if not cfg.path_exists(cfg.stmt_of(c), cfg.stmt_of(saves[0])):
+            continue
+        for g in ctx.cg.resolve(c, f):
+            ps = [p for p in g.params if p != "self"]
+            if idx[0] >= len(ps):
+                continue
+            n += 1
+            scope = [h for h in ctx.cg.reachable([g])]
+            pt = PointsTo(ctx, {g: {ps[idx[0]]: (ps[idx[0]], 3)}}, funcs=scope)
+            hits = [e for e in pt.effects if any(pt.is_input(o) for o in e.recv)]
+            if hits:
+                e = hits[0]
+                chk.violation(rule, e.func.where(e.node), "`%s` (reached from `%s` in main(), before the text report is written) modifies the batch results in place: "
+                              "the report then states the modified values, not what run_games produced" % (norm_stmt(e.node), src(c)[:60]),
+                              expected="the results are only read between run_games() and save_results_to_file()", found=norm_stmt(e.node),
+                              construct="%s mutates the results" % e.func.short)
+            else:
+                chk.ok(rule, f.where(c), "`%s` receives the results before they are saved and only reads them" % src(c)[:60])
+    if n == 0:
+        chk.ok(rule, f.where(saves[0]), "nothing else receives the results between run_games() and save_results_to_file()")
+
+
 CWD_CHANGERS = ("os.chdir", "chdir", "os.fchdir", "os.chroot")
 
 
@@ -351,6 +396,7 @@ def run(ctx, chk):
     r4_main(ctx, chk)
     r6_same_file(ctx, chk)
     r7_no_glued_chunks(ctx, chk)
+    r8_results_untouched(ctx, chk)
     C11.r4_reader(ctx, chk, "C16.5")
     chk.require_instances("C16.1", 14)
     chk.require_instances("C16.4", 3)
